@@ -20,6 +20,7 @@ import json
 import logging
 import multiprocessing
 import os
+import pickle
 import shutil
 import tempfile
 
@@ -42,6 +43,10 @@ RULE = ('session: 300 (quick) / 3500 (thorough) histories of 5..60 (quick) / 5..
         'multi: 60 (quick) / 600 (thorough) histories of 6..30 calls interleaved over 2-3 table objects alive in '
         'one process (memory/disk/generic, bare/wrapped, reopen of one while the others stay open), each table '
         'against its own model run and dict reference, untouched tables must not change. '
+        'durability: reopen comes as close+reopen and as reopen WITHOUT close (old object left open); 40 % of the '
+        'on-disk histories contain 1-2 killed runs (a forked child opens the file, makes 1-4 calls, dies with '
+        'os._exit; with and without a clean close of the parent before); half of the multi histories put two '
+        'live table objects on the SAME file (one model run / reference per file). '
         'bigbatch: one add_many of 1, 499..503, 1000..1003, 1500+ (thorough up to 2506) entries, plain / with '
         'properties (3 strings per entry: 166..168, 333..336) / mixed / with internal duplicates, then count, get_one '
         'at chunk-boundary positions, check_out, a second overlapping batch, count, get_hostnames. '
@@ -132,6 +137,8 @@ def enc_op(op):
         return '%s,%s' % (k, enc(op[1]))
     if k in ('R', 'C', 'L', 'H', 'Z'):
         return k
+    if k == 'Y':
+        return 'Z'      # for the model a new table object on the same path is a reopen, closed or not
     raise Infra('unknown op %r' % (op,))
 
 
@@ -172,14 +179,19 @@ def exc_name(e):
 class Real:
     """A real table of one variant; `apply(op)` returns (canonical output, python value)."""
 
-    def __init__(self, variant, wrapped):
+    def __init__(self, variant, wrapped, share=None):
+        """share: another Real whose database file this one opens too (two live tables on one file)"""
         self.variant = variant
         self.wrapped = wrapped
         self.dir = None
-        if variant != 'memory':
+        self.owns_dir = share is None
+        if share is not None:
+            self.dir = share.dir
+        elif variant != 'memory':
             self.dir = tempfile.mkdtemp(prefix='c14-')
         self.path = os.path.join(self.dir, 'table?é.db') if self.dir else None
         self.table = None
+        self.abandoned = []       # table objects left open without close() (a killed run's handles)
         self.open()
 
     def open(self):
@@ -194,13 +206,58 @@ class Real:
         self.table = URLTableHookWrapper(t) if self.wrapped else t
 
     def dispose(self):
-        try:
-            if self.table is not None:
-                self.table.close()
-        except Exception:
-            pass
-        if self.dir:
+        for t in [self.table] + self.abandoned:
+            try:
+                if t is not None:
+                    t.close()
+            except Exception:
+                pass
+        if self.dir and self.owns_dir:
             shutil.rmtree(self.dir, ignore_errors=True)
+
+    def fork_run(self, subops):
+        """A forked child opens its own table object on the same file, makes the calls and dies with
+        os._exit (no close()); returns its per-call (output, result, get_all)."""
+        r, w = os.pipe()
+        pid = os.fork()
+        if pid == 0:
+            code = 1
+            try:
+                os.close(r)
+                self.abandoned.append(self.table)
+                res = []
+                try:
+                    self.open()
+                except Exception as e:     # the constructor's failure is an observation, not a harness error
+                    name = exc_name(e)
+                    res = [('exc:' + name, ('exc', name), 'constructor raised ' + name) for _ in subops]
+                    subops = []
+                for so in subops:
+                    out, result = self.apply(so)
+                    try:
+                        st = self.state()
+                    except Exception as e:
+                        st = 'get_all raised ' + exc_name(e)
+                    res.append((out, result, st))
+                data = pickle.dumps(res)
+                while data:
+                    n = os.write(w, data)
+                    data = data[n:]
+                code = 0
+            finally:
+                os._exit(code)
+        os.close(w)
+        chunks = []
+        while True:
+            b = os.read(r, 1 << 16)
+            if not b:
+                break
+            chunks.append(b)
+        os.close(r)
+        _, status = os.waitpid(pid, 0)
+        if status != 0 or not chunks:
+            raise Infra('forked table child failed (status %r)' % status)
+        return pickle.loads(b''.join(chunks))
 
     @property
     def persistent(self):
@@ -267,6 +324,11 @@ class Real:
             t.close()
             self.open()
             return ('none', None)
+        if k == 'Y':
+            # reopen WITHOUT close: the old object (and its connection) stays behind, as after a kill
+            self.abandoned.append(t)
+            self.open()
+            return ('none', None)
         raise Infra('unknown op %r' % (op,))
 
     def apply(self, op):
@@ -330,6 +392,9 @@ class Oracle:
         self.step = i
         self.cur_op = op
         k = op[0]
+        name_k = k
+        if k == 'Y':
+            k = 'Z'
         before = {u: list(f) for u, f in self.ref.items()}
         order_before = list(self.ref)
         after = {}
@@ -346,7 +411,7 @@ class Oracle:
         if exc is not None and not (k == 'O' and exc == 'NotFound') and not (k == '1' and exc == 'NotFound'):
             # a refused call must leave the table as it was
             if state != [tuple(before[u]) for u in order_before]:
-                self.fail('refused-call-changed-table', OPNAME.get(k, k), 'raised %s but the table changed' % exc)
+                self.fail('refused-call-changed-table', OPNAME.get(name_k, name_k), 'raised %s but the table changed' % exc)
             self.ref = {u: after[u] for u in order_after}
             return
         if k == 'A':
@@ -463,19 +528,19 @@ class Oracle:
         if k not in ('X',) and not (k == 'Z' and not self.persistent):
             lost = [u for u in order_before if u not in after]
             if lost:
-                self.fail('deleted-without-remove', OPNAME.get(k, k), 'URLs %r vanished' % (lost,))
+                self.fail('deleted-without-remove', OPNAME.get(name_k, name_k), 'URLs %r vanished' % (lost,))
         # the table agrees with the reference as a whole
         if order_after != exp_order or any(after[u] != exp[u] for u in exp_order if u in after):
             diff = [(u, exp.get(u), after.get(u)) for u in dict.fromkeys(exp_order + order_after)
                     if exp.get(u) != after.get(u)][:3]
-            self.fail('differs-from-reference', OPNAME.get(k, k),
+            self.fail('differs-from-reference', OPNAME.get(name_k, name_k),
                       'order %r vs expected %r; first differences %r' % (order_after[:8], exp_order[:8], diff))
         self.ref = {u: after[u] for u in order_after}
 
 
 OPNAME = {'A': 'add_many', 'O': 'check_out', 'I': 'check_in', 'U': 'update_one', 'R': 'release', 'X': 'remove_many',
           'V': 'add_visits', 'G': 'get_revisit_id', 'C': 'count', 'L': 'get_all', '1': 'get_one', 'Q': 'contains',
-          'H': 'get_hostnames', 'Z': 'close'}
+          'H': 'get_hostnames', 'Z': 'close', 'Y': 'reopen_without_close'}
 
 
 class VisitOracle:
@@ -491,7 +556,7 @@ class VisitOracle:
         if op[0] == 'V':
             for u, i, d in op[1]:
                 self.v.setdefault(u, (i, d))
-        elif op[0] == 'Z' and not persistent:
+        elif op[0] in ('Z', 'Y') and not persistent:
             self.v = {}
         elif op[0] == 'G':
             want = self.v.get(op[1])
@@ -660,7 +725,7 @@ def gen_op(rng, pool, allow_reopen=True):
         return ['Q', url()]
     if r < 0.975:
         return ['H']
-    return ['Z'] if allow_reopen else ['R']
+    return [rng.choice('ZY')] if allow_reopen else ['R']
 
 
 def op_values(op):
@@ -746,7 +811,7 @@ def gen_probe(rng, pool):
         obs = ['Q', url()]
     else:
         obs = rng.choice([['C'], ['L']])
-    mid = [change] + ([['Z']] if rng.random() < 0.12 else [])
+    mid = [change] + ([[rng.choice('ZY')]] if rng.random() < 0.12 else [])
     return [list(obs)] + mid + [list(obs)]
 
 
@@ -782,6 +847,15 @@ def gen_session(rng, maxlen):
             continue
         ops.append(op)
     variant = rng.choice(['memory', 'disk', 'disk', 'generic'])
+    if variant != 'memory' and rng.random() < 0.4:
+        # a killed run: a forked child works on the file and dies without close(); the parent reopens
+        for _ in range(rng.randrange(1, 3)):
+            sub = []
+            while len(sub) < rng.randrange(1, 5):
+                so = gen_op(rng, pool, allow_reopen=False)
+                if len(error_kinds(so)) <= 1:
+                    sub.append(so)
+            ops.insert(rng.randrange(1, len(ops) + 1), ['K', sub, rng.random() < 0.5])
     return {'variant': variant, 'wrapped': rng.random() < 0.5, 'ops': ops}
 
 
@@ -839,7 +913,7 @@ def exhaustive_cases(thorough):
     eb = {'url': XB, 'props': {'parent_url': XA, 'root_url': XA, 'level': 1}, 'data': None}
     changers = [['A', [ea]], ['A', [eb]], ['O', 'todo', None], ['O', 'todo', 1], ['O', 'error', None],
                 ['I', XA, 'done', True, None], ['I', XA, 'error', True, None], ['I', XB, 'todo', False, None],
-                ['R'], ['X', [XA]], ['U', XB, {'level': 0}], ['U', XA, {'status': 'todo'}], ['Z']]
+                ['R'], ['X', [XA]], ['U', XB, {'level': 0}], ['U', XA, {'status': 'todo'}], ['Z'], ['Y']]
     observers = [['O', 'todo', None], ['O', 'todo', 1], ['O', 'error', None], ['O', 'in_progress', None],
                  ['1', XA], ['C']]
     prefixes = [[['A', [ea, eb]], ['O', 'todo', None]],
@@ -871,7 +945,7 @@ def model_lines(cases, mode='run'):
     out = []
     for c in cases:
         out.append('table %s %s %s' % (mode, 'F' if c['variant'] == 'memory' else 'T',
-                                       ' '.join(enc_op(op) for op in c['ops'])))
+                                       ' '.join(enc_op(op) for op, _ in flatten(c['ops']))))
     return out
 
 
@@ -889,9 +963,25 @@ def split_reply(rep, n):
     return res
 
 
+def flatten(ops):
+    """['K', subops, closed?] (closed: the parent closes its table before the fork, so the dead child's
+    handle is the only one left behind) = a forked child opens the file, makes the calls and dies without close(); then the
+    parent opens a new table object without closing its old one.  For the model that is: the calls, then
+    a reopen.  Returns [(op, fork id or None)]."""
+    flat = []
+    for n, op in enumerate(ops):
+        if op[0] == 'K':
+            flat += [(list(so), n) for so in op[1]]
+            flat.append((['Y'], None))
+        else:
+            flat.append((op, None))
+    return flat
+
+
 def run_case(ctx, case, reply, stream='session'):
     """Run one history on the real table; compare with the model reply; feed the oracle."""
-    ops = case['ops']
+    flat = flatten(case['ops'])
+    ops = [op for op, _ in flat]
     model = split_reply(reply, len(ops)) if reply is not None else None
     real = Real(case['variant'], case['wrapped'])
     oracle = Oracle(ctx, case, real.persistent)
@@ -900,10 +990,24 @@ def run_case(ctx, case, reply, stream='session'):
     tags = set()
     try:
         prev_state = []
-        for i, op in enumerate(ops):
-            out, result = real.apply(op)
+        forked = {}
+        for i, (op, kid) in enumerate(flat):
+            if kid is not None:
+                if kid not in forked:
+                    if len(case['ops'][kid]) > 2 and case['ops'][kid][2]:
+                        real.table.close()      # the parent had closed cleanly; only the child is "killed"
+                        tags.add('forked-child-after-close')
+                    forked[kid] = real.fork_run([o for o, k2 in flat if k2 == kid])
+                    tags.add('forked-child')
+                out, result, state = forked[kid].pop(0)
+            else:
+                out, result = real.apply(op)
+                state = None
             try:
-                state = real.state()
+                if isinstance(state, str):
+                    raise RuntimeError(state)
+                if state is None:
+                    state = real.state()
             except Exception as e:
                 ctx.disagree(stream, {'case': case, 'step': i}, model[i][1] if model else None,
                              'get_all raised %s' % exc_name(e))
@@ -943,6 +1047,10 @@ def gen_multi(rng, maxlen=30):
     n = rng.choice([2, 2, 3])
     tables = [{'variant': rng.choice(['memory', 'disk', 'disk', 'generic']), 'wrapped': rng.random() < 0.4}
               for _ in range(n)]
+    if rng.random() < 0.5:
+        # two live table objects on the SAME file: they are one table
+        tables[0]['variant'] = rng.choice(['disk', 'disk', 'generic'])
+        tables[-1] = {'variant': tables[0]['variant'], 'wrapped': rng.random() < 0.4, 'same_as': 0}
     pool = rng.sample(PLAIN, rng.randrange(3, 6))
     ops = []
     for k in range(n):
@@ -958,9 +1066,14 @@ def gen_multi(rng, maxlen=30):
     return {'tables': tables, 'ops': ops}
 
 
+def group_of(case, i):
+    return case['tables'][i].get('same_as', i)
+
+
 def multi_lines(case):
+    """one model run per database: the calls made through any table object opened on it, in order"""
     return ['table run %s %s' % ('F' if t['variant'] == 'memory' else 'T',
-                                 ' '.join(enc_op(op) for k, op in case['ops'] if k == i))
+                                 ' '.join(enc_op(op) for k, op in case['ops'] if group_of(case, k) == i))
             for i, t in enumerate(case['tables'])]
 
 
@@ -969,7 +1082,8 @@ def run_multi(ctx, case, replies, stream='multi'):
     dict reference; after every call the tables that were not called must show what they showed before
     (the frame property `step_left_preserves_right` / `interleaving_projects` of the model)."""
     n = len(case['tables'])
-    subs = [[op for k, op in case['ops'] if k == i] for i in range(n)]
+    grp = [group_of(case, i) for i in range(n)]
+    subs = [[op for k, op in case['ops'] if grp[k] == i] for i in range(n)]
     models = [split_reply(r, len(subs[i])) if r is not None and subs[i] else ([] if r is not None else None)
               for i, r in enumerate(replies)] if replies is not None else [None] * n
     reals, oracles, visits = [], [], []
@@ -977,7 +1091,16 @@ def run_multi(ctx, case, replies, stream='multi'):
     tags = set()
     try:
         for i, t in enumerate(case['tables']):
-            reals.append(Real(t['variant'], t['wrapped']))
+            try:
+                reals.append(Real(t['variant'], t['wrapped'], share=reals[grp[i]] if grp[i] != i else None))
+            except Infra:
+                raise
+            except Exception as e:
+                ctx.fail('constructor-raised', 'open', dict(case, failed_at_step=-1),
+                         'opening table %d (%r) while tables %r are open raises %s'
+                         % (i, t, list(range(i)), exc_name(e)))
+                ctx.case(('multi', json.dumps(jsonable_ops(case['tables'])), 'constructor'), tags=['stream:' + stream])
+                return
         for i, r in enumerate(reals):
             o = Oracle(ctx, case, r.persistent)
             o.label = 'table %d ' % i
@@ -985,8 +1108,9 @@ def run_multi(ctx, case, replies, stream='multi'):
             visits.append(VisitOracle(o))
         states = [[] for _ in range(n)]
         pos = [0] * n
-        for gi, (k, op) in enumerate(case['ops']):
-            out, result = reals[k].apply(op)
+        for gi, (tk, op) in enumerate(case['ops']):
+            out, result = reals[tk].apply(op)
+            k = grp[tk]
             new_states = []
             try:
                 for r in reals:
@@ -998,7 +1122,15 @@ def run_multi(ctx, case, replies, stream='multi'):
             tags.add('op:' + OPNAME.get(op[0], op[0]) + (':' + result[1] if result[0] == 'exc' else ''))
             stop = False
             for j in range(n):
-                if j != k and new_states[j] != states[j]:
+                if grp[j] == k and new_states[j] != new_states[tk]:
+                    ctx.fail('same-file-tables-differ', OPNAME.get(op[0], op[0]), dict(case, failed_at_step=gi),
+                             'step %d: after %s through table %d, table %d on the same file shows %r, table %d %r'
+                             % (gi, OPNAME.get(op[0], op[0]), tk, j, [(f[0], f[3]) for f in new_states[j]][:6],
+                                tk, [(f[0], f[3]) for f in new_states[tk]][:6]))
+                    ctx.disagree(stream, {'case': case, 'step': gi, 'what': 'same-file'}, enc_recs(new_states[tk]),
+                                 enc_recs(new_states[j]))
+                    stop = True
+                if grp[j] != k and new_states[j] != states[j]:
                     ctx.fail('other-table-changed', OPNAME.get(op[0], op[0]), dict(case, failed_at_step=gi),
                              'step %d: %s on table %d changed what table %d shows: %r -> %r'
                              % (gi, OPNAME.get(op[0], op[0]), k, j, [f[0] for f in states[j]][:6],
@@ -1006,28 +1138,30 @@ def run_multi(ctx, case, replies, stream='multi'):
                     ctx.disagree(stream, {'case': case, 'step': gi, 'what': 'frame'}, enc_recs(states[j]),
                                  enc_recs(new_states[j]))
                     stop = True
-            if new_states[k] != states[k]:
+            if new_states[tk] != states[tk]:
                 changed = True
-            oracles[k].observe(gi, op, result, new_states[k])
+            oracles[k].observe(gi, op, result, new_states[tk])
             visits[k].observe(op, result, reals[k].persistent)
             if models[k] is not None:
                 m_out, m_state = models[k][pos[k]]
                 m_out = canon_model_out(m_out)
-                if not (op[0] == 'L' and m_out == 'recs:' + m_state and out == 'recs:' + enc_recs(new_states[k])) \
+                if not (op[0] == 'L' and m_out == 'recs:' + m_state and out == 'recs:' + enc_recs(new_states[tk])) \
                         and m_out != out:
                     ctx.disagree(stream, {'case': case, 'step': gi, 'what': 'output'}, m_out, out)
                     stop = True
-                elif m_state != enc_recs(new_states[k]):
-                    ctx.disagree(stream, {'case': case, 'step': gi, 'what': 'get_all'}, m_state, enc_recs(new_states[k]))
+                elif m_state != enc_recs(new_states[tk]):
+                    ctx.disagree(stream, {'case': case, 'step': gi, 'what': 'get_all'}, m_state, enc_recs(new_states[tk]))
                     stop = True
             pos[k] += 1
             states = new_states
             if stop:
                 break
     finally:
-        for r in reals:
+        for r in reversed(reals):
             r.dispose()
     tags.add('stream:' + stream)
+    if any(grp[i] != i for i in range(n)):
+        tags.add('two-tables-one-file')
     tags.add('tables:%d' % n)
     ctx.case(('multi', json.dumps(jsonable_ops(case['tables'])), json.dumps(jsonable_ops(case['ops']), sort_keys=True)),
              nontrivial=changed, tags=sorted(tags))
@@ -1138,6 +1272,9 @@ def normalise(case):
     case.setdefault('variant', 'memory')
     case.setdefault('wrapped', False)
     case['ops'] = [list(op) for op in case['ops']]
+    for op in case['ops']:
+        if op[0] == 'K':
+            op[1] = [list(so) for so in op[1]]
     return case
 
 
